@@ -8,7 +8,7 @@ cd $WT
 demo() { HOME=$(mktemp -d) PYTHONPATH=$WT timeout 120 /venv/bin/python $D/m${N}_demo.py 2>&1 | tail -1; }
 echo "== $P m$N: $(python3 -c "import json;print(json.load(open('$D/m$N.json'))['summary'][:150])" 2>/dev/null)"
 echo "demo without: $(demo)"
-if ! git apply $D/m$N.diff; then echo "PATCH DOES NOT APPLY"; cd /; git -C /repo worktree remove --force $WT; exit 3; fi
+if ! git apply $D/m$N.diff 2>/dev/null && ! git apply --3way $D/m$N.diff; then echo "PATCH DOES NOT APPLY"; cd /; git -C /repo worktree remove --force $WT; exit 3; fi
 echo "demo with:    $(demo)"
 echo "suite: $(PYTHONPATH=$WT timeout 600 /venv/bin/python -m pytest -q -p no:cacheprovider 2>&1 | tail -1)"
 for Q in $P "$@"; do
